@@ -7,11 +7,14 @@ BOUNDS = {'shortest_int': 'every real data vector (ties allowed) of length 2..5 
                  '(at most 2 outside the interval, as the 0.01% tail of a 20001-sample record allows); n in {1,2,3} with symbolic V_max, n = 8 (thorough: also 10, one sample; 12-bit obligations exceed the 240 s query budget) with V_max - V_min in {1, 0.37}; both otype values. '
                  'Symbolically shortest_int is replaced by its contract (returns that interval); concrete validation/replay runs use a '
                  '20001-sample record and the real shortest_int.',
-          'ADC short records': 'length 2..4 with the real shortest_int in the loop (interval = [min, max])'}
+          'ADC short records': 'length 2..4 with the real shortest_int in the loop (interval = [min, max])',
+          'narrow integer records': 'shortest_int on int16 (thorough: int8, uint8) data of length 2..3 (thorough 4) over the whole value range of the dtype; '
+                                    'ADC on int16 records (long: V_min in [-20000, 20000], range 1..12000 counts, samples anywhere in int16; short: 2..3 samples)'}
 OUTSIDE = ['data lengths above the bound for the minimal-interval clause', 'percentages with floor(p*len/100) = 0 (empty lag; the code has no such caller)',
            'the fs (resampling) option of ADC: scipy.signal.resample is outside the model',
-           'records stored in a narrow integer dtype (int8/int16/int32): the model keeps mathematical integers, so machine-width wrap-around '
-           'inside ADC arithmetic is not represented (float and int64 records are)']
+           '64-bit integer overflow (int64 stays a mathematical integer in the model; int8/int16/int32/uint8/uint16/uint32 arrays wrap as in numpy, '
+           'with numpy 1.x value-based casting of scalars); numpy *scalar* arithmetic on narrow integers (np.int16 - np.int16) is not distinguished '
+           'from Python int arithmetic']
 ASSUMPTIONS = ['floor(len*p/100) is evaluated exactly; for the percentages used the double evaluation agrees (checked in the validation runs)',
                'ADC symbolic runs: shortest_int(record, 99.99) returns the record\'s shortest 99.99% interval (its own clause, decided separately)']
 LIMITS = {'max_paths': 4000, 'max_branches': 800}
@@ -36,10 +39,17 @@ def scen_shortest(env, cfg):
         # quantised data: integer-valued samples, many exact ties
         ks = [env.int(f'k[{i}]', -2, 2) for i in range(n)]
         xs = [k * env.const('0.5') for k in ks]
-    data = env.arr(list(xs))
+    if cfg.get('dtype'):
+        # raw integer counts stored in a narrow dtype: every value of that dtype, extremes included
+        lo_, hi_ = {'int16': (-32768, 32767), 'int8': (-128, 127), 'uint8': (0, 255)}[cfg['dtype']]
+        xs = [env.int(f'k[{i}]', lo_, hi_) for i in range(n)]
+        data = env.arr(list(xs), dtype=cfg['dtype'])
+    else:
+        data = env.arr(list(xs))
     snap = env.snap(data)
     r = U.shortest_int(data, env.const(p))
-    vals = env.items(r)
+    import numpy as _rnp
+    vals = [v.item() if isinstance(v, _rnp.generic) else v for v in env.items(r)]     # plain numbers: the oracle below must not wrap
     env.check('returns two values', len(vals) == 2)
     lo, hi = vals
     s = _sorted(env, xs)
@@ -57,13 +67,20 @@ def scen_adc_long(env, cfg):
     """ADC on a long record: x = a few arbitrary samples of it, [Vmin, Vmax] its 99.99% shortest interval."""
     D, T, U = env.lib.devices, env.lib.typing, env.lib.utils
     m, nb, otype, noise = cfg['m'], cfg['bits'], cfg['otype'], cfg['noise']
-    Vmin = env.real('Vmin', -5, 5)
-    if cfg.get('width'):
+    idt = cfg.get('dtype')
+    if idt:
+        # a record of raw integer counts stored in a narrow dtype (numpy keeps that dtype through electrical_signal and through
+        # array-with-scalar arithmetic, wrapping modulo 2^16); bound: full-scale range below 2^15 counts
+        Vmin = env.int('Vmin', -20000, 20000)
+        Vmax = Vmin + env.int('width', 1, 12000)
+    elif cfg.get('width'):
+        Vmin = env.real('Vmin', -5, 5)
         Vmax = Vmin + env.const(cfg['width'])       # concrete full-scale width keeps the many-level obligations linear
     else:
+        Vmin = env.real('Vmin', -5, 5)
         Vmax = env.real('Vmax', -5, 5)
         env.assume(Vmax - Vmin >= env.const('0.001'))
-    xs = env.reals('x', m, -50, 50)
+    xs = [env.int(f'x[{i}]', -32768, 32767) for i in range(m)] if idt else env.reals('x', m, -50, 50)
     ws = env.reals('w', m, -1, 1) if noise else None
     tot = [a + b for a, b in zip(xs, ws)] if noise else list(xs)
     outside = [env.Or(v < Vmin, v > Vmax) for v in tot]
@@ -74,7 +91,7 @@ def scen_adc_long(env, cfg):
     if env.symbolic:
         pad = []
         saved = D.shortest_int
-        D.shortest_int = lambda sig, pct: env.arr([Vmin, Vmax])       # contract stub (see ASSUMPTIONS)
+        D.shortest_int = lambda sig, pct: env.arr([Vmin, Vmax], dtype=float)       # contract stub (see ASSUMPTIONS): two data values, as floats
     else:
         half = (L - m) // 2
         pad = [Vmin] * half + [Vmax] * (L - m - half)
@@ -82,6 +99,8 @@ def scen_adc_long(env, cfg):
         sig = list(xs) + pad
         if noise:
             x = T.electrical_signal(sig, list(ws) + [0 * Vmin] * len(pad))
+        elif idt:
+            x = T.electrical_signal(env.arr(sig, dtype=idt)) if cfg.get('form', 'es') == 'es' else env.arr(sig, dtype=idt)
         elif cfg.get('raw'):
             x = T.electrical_signal(sig)
         else:
@@ -123,10 +142,14 @@ def scen_adc_short(env, cfg):
     """short records with the real shortest_int in the loop: the interval is [min, max]."""
     D, T = env.lib.devices, env.lib.typing
     m, nb, otype = cfg['m'], cfg['bits'], cfg['otype']
-    xs = env.reals('x', m, -5, 5)
+    idt = cfg.get('dtype')
+    xs = [env.int(f'x[{i}]', -32768, 32767) for i in range(m)] if idt else env.reals('x', m, -5, 5)
     s = _sorted(env, xs)
-    env.assume(s[-1] - s[0] >= env.const('0.001'))
-    arg = T.electrical_signal(list(xs)) if cfg['form'] == 'es' else env.arr(list(xs))
+    env.assume(s[-1] - s[0] >= (1 if idt else env.const('0.001')))
+    if idt:
+        arg = T.electrical_signal(env.arr(list(xs), dtype=idt)) if cfg['form'] == 'es' else env.arr(list(xs), dtype=idt)
+    else:
+        arg = T.electrical_signal(list(xs)) if cfg['form'] == 'es' else env.arr(list(xs))
     y = D.ADC(arg, n=nb, otype=otype)
     out = env.items(y.signal)
     levels = (1 << nb) - 1
@@ -176,6 +199,9 @@ def configs(tier):
             out.append((f'shortest-n{n}-lag{lag}', scen_shortest, dict(n=n, lag=lag, p=repr(p)), {}))
             if n <= (5 if q else 6):
                 out.append((f'shortest-quantised-n{n}-lag{lag}', scen_shortest, dict(n=n, lag=lag, p=repr(p), ints=True), {}))
+            if n <= (3 if q else 4):
+                for dt in (('int16',) if q else ('int16', 'int8', 'uint8')):
+                    out.append((f'shortest-{dt}-n{n}-lag{lag}', scen_shortest, dict(n=n, lag=lag, p=repr(p), dtype=dt), {}))
     for nb in ((1, 3, 8) if q else (1, 2, 3, 8, 10)):
         for otype in ('n', 'v'):
             for m in ((1, 2) if q else (1, 2, 3)):
@@ -185,10 +211,16 @@ def configs(tier):
                     for wd in ('1', '0.37'):
                         out.append((f'adc-long-{nb}bit-{otype}-m{m}-width{wd}', scen_adc_long,
                                     dict(m=m, bits=nb, otype=otype, noise=False, width=wd), {'validate': 1}))
+    for m in ((1,) if q else (1, 2)):
+        for nb in ((3,) if q else (2, 3, 4)):
+            for form in ('es', 'ndarray'):
+                out.append((f'adc-long-int16-{nb}bit-n-m{m}-{form}', scen_adc_long, dict(m=m, bits=nb, otype='n', noise=False, dtype='int16', form=form), {'validate': 1}))
     out.append(('adc-long-noise', scen_adc_long, dict(m=1, bits=3, otype='n', noise=True), {'validate': 1}))
     for nb, otype, m, form in ((2, 'n', 2, 'es'), (3, 'v', 3, 'es'), (4, 'n', 2, 'ndarray')) if q else \
             ((1, 'n', 2, 'es'), (2, 'n', 2, 'es'), (3, 'v', 3, 'es'), (4, 'n', 2, 'ndarray'), (4, 'v', 3, 'es'), (3, 'n', 4, 'es')):
         out.append((f'adc-short-{nb}bit-{otype}-m{m}-{form}', scen_adc_short, dict(m=m, bits=nb, otype=otype, form=form), {}))
+    for nb, otype, m, form in ((3, 'n', 2, 'es'), (2, 'v', 3, 'ndarray')) if q else ((3, 'n', 2, 'es'), (2, 'v', 3, 'ndarray'), (4, 'n', 3, 'es'), (1, 'n', 2, 'ndarray')):
+        out.append((f'adc-short-int16-{nb}bit-{otype}-m{m}-{form}', scen_adc_short, dict(m=m, bits=nb, otype=otype, form=form, dtype='int16'), {}))
     for m in (2, 3):
         out.append((f'adc-defined-m{m}', scen_adc_defined, dict(m=m, bits=3, otype='v'), {}))
     return out
